@@ -258,7 +258,7 @@ class C20(Property):
     exhaustive_note = ("fields {a:str, b:int}; include, omit in {None, [], [a], [b], [a,b], [zz]}; rename in {None, a->b, a->z, z->a, "
                        "swap a<->b, chain z->a,y->z}; op in slice/update/setby; key in {None, upper} for slice/update")
     quick_n = 100000
-    thorough_n = 200000
+    thorough_n = 600000
 
     # ------------------------------------------------------------ cases
 
